@@ -104,16 +104,26 @@ def load_config(pid):
 
 
 def load_known():
-    """known_findings.json plus (while the clusters are being built) known_findings.d/*.json."""
-    out = []
+    """known_findings.json (generated union, committed) plus the per-cluster working files
+    known_findings.d/*.json it is generated from (so an entry a builder just added counts before the
+    union is regenerated); duplicates are dropped."""
+    out, seen = [], set()
     paths = [os.path.join(VERIF, "known_findings.json")]
     d = os.path.join(VERIF, "known_findings.d")
     if os.path.isdir(d):
         paths += sorted(os.path.join(d, x) for x in os.listdir(d) if x.endswith(".json"))
-    for path in paths:
+    for path in paths[1:] + paths[:1]:
         if os.path.exists(path):
             with open(path) as f:
-                out += json.load(f).get("findings", [])
+                for e in json.load(f).get("findings", []):
+                    key = (e.get("property"), e.get("signature"), e.get("status", "open"))
+                    if key in seen:
+                        continue
+                    # the working files win: an entry flipped to fixed there is no longer open
+                    if (e.get("property"), e.get("signature")) in {(k[0], k[1]) for k in seen} and path == paths[0]:
+                        continue
+                    seen.add(key)
+                    out.append(e)
     return out
 
 
